@@ -41,7 +41,17 @@ static void dump_on_fail(const case_t *c, const ev_t *ev, size_t nev)
 }
 
 /* diagonal preference, judged from the returned factors (see DESIGN 5/C02) */
-static void check_diag_pref(const lud_t *d, const int_t *perm_r, const int_t *perm_c, ld u, long *checked, long *undec)
+static real_t wabs1(ref_t v)      /* the magnitude the library compares, in its own arithmetic: |x|, resp. |re| + |im| */
+{
+#if IS_COMPLEX
+    real_t re = (real_t)creall(v), im = (real_t)cimagl(v);
+    real_t a = (real_t)fabsl((ld)re), b = (real_t)fabsl((ld)im);
+    return (real_t)(a + b);
+#else
+    return (real_t)fabsl((ld)(real_t)v);
+#endif
+}
+static void check_diag_pref(const lud_t *d, const int_t *perm_r, const int_t *perm_c, ld u, long *checked, long *undec, const ref_t *Gd, long *ties)
 {
     int_t n = d->n;
     int_t *ipc = xmalloc((n + 1) * sizeof(int_t));
@@ -52,6 +62,24 @@ static void check_diag_pref(const lud_t *d, const int_t *perm_r, const int_t *pe
         int_t p = perm_r[drow];
         if (p == j) { ++*checked; continue; }   /* diagonal was chosen */
         if (p < j) continue;                     /* row already used as an earlier pivot */
+        if (Gd && u == 1.0L) {
+            /* a column that received no update (no entry of U above its diagonal): its candidates are the entries of A themselves,
+               so the comparison the library made can be repeated exactly - ties included (|a_jj| == max meets the threshold u = 1) */
+            int untouched = 1;
+            for (int_t k = 0; k < j && untouched; ++k) if (d->U[(size_t)j * n + k] != 0) untouched = 0;
+            if (untouched) {
+                real_t dg = wabs1(Gd[(size_t)drow * n + drow]), mxw = 0;
+                for (int_t i = 0; i < n; ++i) if (perm_r[i] >= j) { real_t a = wabs1(Gd[(size_t)drow * n + i]); if (a > mxw) mxw = a; }
+                ++*checked;
+                if (dg != 0 && dg >= mxw) {
+                    if (dg == mxw) ++*ties;
+                    if (nv++ == 0)
+                        jo_fail("C02|diagonal-not-preferred", "step %ld (column without updates, exact comparison): |a_jj| = %.9g is nonzero and meets the threshold %.9g (u = 1) but row %ld was chosen instead",
+                                (long)j, (double)dg, (double)mxw, (long)p);
+                }
+                continue;
+            }
+        }
         ref_t piv = d->U[(size_t)j * n + j];
         ref_t l = d->L[(size_t)j * n + p];
         if (l == 0 || piv == 0) continue;        /* diagonal structurally/numerically zero at this step */
@@ -161,8 +189,9 @@ int cmd_gstrf(const case_t *c)
             ld mr = check_multipliers(&d, (ld)u, "C02|multiplier-bound");
             jo_dbl("recon", (double)rr); jo_dbl("mult", (double)mr); jo_dbl("growth", (double)growth);
             long chk = 0, und = 0;
-            if (!usepr) check_diag_pref(&d, perm_r, opt.perm_c, (ld)u, &chk, &und);
-            jo_int("diag_checked", chk); jo_int("diag_undecided", und);
+            long ties = 0;
+            if (!usepr) check_diag_pref(&d, perm_r, opt.perm_c, (ld)u, &chk, &und, (G.m == n) ? Gd : NULL, &ties);
+            jo_int("diag_checked", chk); jo_int("diag_undecided", und); jo_int("diag_ties", ties);
             if (usepr && fperm_in) {
                 int same = !memcmp(fperm_in, perm_r, n * sizeof(int_t));
                 jo_int("usepr_kept", same);
